@@ -115,6 +115,7 @@ def gen_case(rng):
 
 class C14(object):
     id = 'C14'
+    anchors = ('EquationParser.ParseString', 'Model._FinalEquationFormatting', 'Sector._CreateFinalEquations')
     title = 'Equation text is classified faithfully; comments are inert'
     rule = ('one case = one equation block (1-25 lines of known class: simultaneous, alias, derived, constant, time, '
             'lag in three spellings, initial condition, exogenous list/tuple/expression/scalar after one of seven '
